@@ -79,6 +79,14 @@ class Boom(Exception):
     pass
 
 
+class AsyncCallable:
+    def __init__(self, fn):
+        self.fn = fn
+
+    async def __call__(self):
+        return await self.fn()
+
+
 def make_classes(prog, d, state):
     classes = [None] * len(prog)
     kids = {i: [j for j, c in enumerate(prog) if c["parent"] == i] for i in range(len(prog))}
@@ -163,9 +171,18 @@ def make_classes(prog, d, state):
                     state["npub"] += 1
                     ts = [T(t) for t in types]
                     if fac:
-                        if state["r"].random() < 0.5:
+                        rr = state["r"].random()
+                        if rr < 0.25:
                             async def factory(v=v):       # an asynchronous factory
                                 return v
+                        elif rr < 0.5:
+                            # ... which need not be an `async def` function: any callable that returns an awaitable
+                            async def make(v=v):
+                                await anyio.sleep(0)
+                                return v
+
+                            def factory(make=make):
+                                return make()
                         else:
                             def factory(v=v):
                                 return v
@@ -178,6 +195,8 @@ def make_classes(prog, d, state):
                             else:
                                 add_resource_factory(factory, NAMES[name])
                         elif name == 0 and state["r"].random() < 0.5:
+                            if 0.25 <= rr < 0.5 and v.seq % 2:
+                                factory = AsyncCallable(factory)     # an object whose __call__ is a coroutine function
                             add_resource_factory(factory, types=ts)
                         else:
                             add_resource_factory(factory, NAMES[name], types=ts)
